@@ -62,6 +62,8 @@ pub struct TcpStream {
     ep: Arc<Endpoint>,
     local: SocketAddr,
     peer: SocketAddr,
+    /// the peer reset the connection before it was accepted: `peer_addr` fails (ENOTCONN)
+    peer_gone: bool,
 }
 
 impl TcpStream {
@@ -78,8 +80,8 @@ impl TcpStream {
         let s2c = Pipe::new();
         let cport = 40000 + (fresh_id() % 20000) as u16;
         let caddr = SocketAddr::new(IpAddr::V4(Ipv4Addr::LOCALHOST), cport);
-        let server = TcpStream { ep: Arc::new(Endpoint { rd: c2s.clone(), wr: s2c.clone() }), local: addr, peer: caddr };
-        let client = TcpStream { ep: Arc::new(Endpoint { rd: s2c, wr: c2s }), local: caddr, peer: addr };
+        let server = TcpStream { ep: Arc::new(Endpoint { rd: c2s.clone(), wr: s2c.clone() }), local: addr, peer: caddr, peer_gone: false };
+        let client = TcpStream { ep: Arc::new(Endpoint { rd: s2c, wr: c2s }), local: caddr, peer: addr, peer_gone: false };
         {
             let mut q = l.st.lock().unwrap();
             if q.closed {
@@ -94,13 +96,46 @@ impl TcpStream {
     }
 
     pub fn peer_addr(&self) -> io::Result<SocketAddr> {
+        if self.peer_gone {
+            return Err(io::Error::new(ErrorKind::NotConnected, "transport endpoint is not connected"));
+        }
         Ok(self.peer)
+    }
+
+    /// test-side: a client that connects and resets before the server accepts: the accepted
+    /// socket reports no peer address and fails every read and write
+    pub fn connect_and_vanish<A: ToSocketAddrs>(addr: A) -> io::Result<()> {
+        let (rt, me) = current();
+        rt.yield_point(me);
+        let addr = addr.to_socket_addrs()?.next().ok_or_else(|| io::Error::new(ErrorKind::InvalidInput, "no address"))?;
+        let l = registry().lock().unwrap().get(&addr.port()).cloned();
+        let l = match l {
+            Some(l) => l,
+            None => return Err(io::Error::new(ErrorKind::ConnectionRefused, "connection refused")),
+        };
+        let c2s = Pipe::new();
+        let s2c = Pipe::new();
+        c2s.st.lock().unwrap().reset = true;
+        s2c.st.lock().unwrap().reset = true;
+        let caddr = SocketAddr::new(IpAddr::V4(Ipv4Addr::LOCALHOST), 39999);
+        let server = TcpStream { ep: Arc::new(Endpoint { rd: c2s, wr: s2c }), local: addr, peer: caddr, peer_gone: true };
+        {
+            let mut q = l.st.lock().unwrap();
+            if q.closed {
+                return Err(io::Error::new(ErrorKind::ConnectionRefused, "connection refused"));
+            }
+            q.queue.push_back(server);
+        }
+        let mut g = rt.inner.lock().unwrap();
+        g.log(me, format!("connect_and_vanish port {}", addr.port()));
+        g.wake_all_on(&Res::Accept(l.id), Wake::Ready);
+        Ok(())
     }
     pub fn local_addr(&self) -> io::Result<SocketAddr> {
         Ok(self.local)
     }
     pub fn try_clone(&self) -> io::Result<TcpStream> {
-        Ok(TcpStream { ep: self.ep.clone(), local: self.local, peer: self.peer })
+        Ok(TcpStream { ep: self.ep.clone(), local: self.local, peer: self.peer, peer_gone: self.peer_gone })
     }
     pub fn set_nodelay(&self, _: bool) -> io::Result<()> {
         Ok(())
